@@ -80,6 +80,21 @@ def gen(tier, rng):
             calls += [sess.E(DUMP), "R5000"]
             cases.append(Case(sess.session(calls), sig=key + "\n#%s inserted at line %s" % (word, num), tag="stop-cont",
                               meta=("stop", pi, (word, num))))
+    # a direct line that fails to compile runs nothing: typed between the break and CONT it must not cost the CONT point
+    loop = ["10 FOR I=1 TO 3", "20 IF I=2 THEN STOP", "30 PRINT I", "40 NEXT I", '50 PRINT "DONE"']
+    for bad in ["PRINT I+", "?I)", "GOTO 64999", "WEND", "X=", "GOSUB 64999:PRINT 1", "WHILE 1", "IF THEN"]:
+        for follow in ([], ["PRINT I"]):
+            c = base_calls(loop) + [sess.E("RUN"), "R5000", sess.E(bad), "R5000"]
+            for f in follow:
+                c += [sess.E(f), "R5000"]
+            c += [sess.E("CONT"), "R5000", sess.E(DUMP), "R5000"]
+            cases.append(Case(sess.session(c), sig="\n".join(loop) + "\n#RUN (stops in 20); mistyped: %s; %sCONT" % (bad, "PRINT I; " if follow else ""),
+                              tag="mistyped", meta=("mistyped", 0, bad)))
+        plain = [l for l in loop if not l.startswith("20 ")]
+        for k in (5, 9, 12, 20):
+            c = base_calls(plain) + [sess.E("RUN")] + ["X1"] * k + ["I", "R5000", sess.E(bad), "R5000", sess.E("CONT"), "R5000", sess.E(DUMP), "R5000"]
+            cases.append(Case(sess.session(c), sig="\n".join(plain) + "\n#RUN, interrupt after %d calls; mistyped: %s; CONT" % (k, bad),
+                              tag="mistyped", meta=("mistyped", k, bad)))
     # STOP at the end of the THEN branch of every one-line IF..THEN..ELSE, and in a few fixed shapes
     fixed = [["10 A=1", '20 IF A=1 THEN PRINT "T":STOP ELSE PRINT "F":A=5', '30 PRINT "DONE";A'],
              ["10 A=1", "20 IF A=1 THEN END ELSE A=5", "30 PRINT A"],
@@ -134,6 +149,12 @@ def monitor(case, r):
         return None
     if "PANIC" in r or "HANG" in r or "CRASH" in r:
         return "crash: %s answers %s" % (case.sig, r[-60:])
+    if case.meta and case.meta[0] == "mistyped":
+        text = transcript.printed_text(transcript.split_events(r))
+        if re.search(r"E:\[0 - ", r):
+            return None           # the interrupt hit the direct RUN command itself: nothing to continue
+        if "E:[0 " in r and ("E:[17 " in r or "DONE" not in text):
+            return "resume: a direct line that failed to compile cost the CONT point\n%s\n  %s" % (case.sig, sess.decode_events(r)[-300:])
     return None
 
 
